@@ -384,7 +384,7 @@ T(t_decmod)(T(ctx) *c)
 	int i;
 	mpz_t v, e;
 	mpz_inits(v, e, NULL);
-	for (i = 0; i < 10; i ++) {
+	for (i = 0; i < 15; i ++) {
 		T(op) ox, om, oe;
 		vblk bs;
 		unsigned char *s;
@@ -400,6 +400,13 @@ T(t_decmod)(T(ctx) *c)
 		case 6: L = vf_below(&R, (uint32_t)c->mb); rnd_bits(v, 8 * L); break;
 		case 7: rnd_bits(v, 8 * L); break;
 		case 8: mpz_set_ui(v, 0); L = vf_below(&R, (uint32_t)c->mb + 3); break;
+		/* sources much longer than the modulus (the word loop then ends inside the source) */
+		case 10: L += c->mb / 6 + 3 + vf_below(&R, 14); rnd_below(v, c->m); break;            /* in range, zero padded */
+		case 11: L += c->mb / 6 + 3 + vf_below(&R, 14); rnd_below(v, c->m);
+			mpz_setbit(v, 8 * L - 1 - vf_below(&R, 15)); break;                                /* excess only in the top bits */
+		case 12: L += c->mb / 6 + 3 + vf_below(&R, 14); rnd_bits(v, 8 * L); mpz_setbit(v, 8 * L - 1); break;
+		case 13: L = 2 * c->mb + vf_below(&R, 9); rnd_below(v, c->m);
+			if (vf_below(&R, 2)) mpz_setbit(v, 8 * L - 1 - vf_below(&R, 8 * (uint32_t)(L - c->mb))); break;
 		default: gen_value(v, c->m, (int)(c->k % NCLS), WB); break;
 		}
 		s = blk_new(&bs, L, vf_below(&R, 4), 0);
